@@ -23,7 +23,7 @@ RULE = ("random Bayesian networks (random DAGs of every density, chains, forks, 
         "(sampled when > 12), virtual evidence; each query run through VariableElimination.map_query with "
         "elimination_order in {MinFill, MinNeighbors, MinWeight, WeightedMinFill, None, explicit random permutation}, "
         "BeliefPropagation.map_query on connected networks, max_marginal, and BayesianNetwork.predict on small frames; "
-        "SESSIONS: one long-lived BeliefPropagation or VariableElimination engine receiving 2..6 public calls (calibrate, max_calibrate, get_clique_beliefs, query, max_marginal, map_query with hard/virtual evidence, repeated and role-re-split questions) with every map_query answer judged as a single query is; Markov networks (unary/pairwise/triangle factors, same-scope factors in different axis orders, and EQUAL duplicate factors) for the elimination engine; plus direct streams for "
+        "PARAMETER UPDATES: one BayesianNetwork object is used, then CPDs are replaced on it (add_cpds without remove, remove_cpds+add_cpds, fit on data) for 2..3 rounds, and FRESH VariableElimination and BeliefPropagation engines must answer for the parameters the model lists now; SESSIONS: one long-lived BeliefPropagation or VariableElimination engine receiving 2..6 public calls (calibrate, max_calibrate, get_clique_beliefs, query, max_marginal, map_query with hard/virtual evidence, repeated and role-re-split questions) with every map_query answer judged as a single query is; Markov networks (unary/pairwise/triangle factors, same-scope factors in different axis orders, and EQUAL duplicate factors) for the elimination engine; plus direct streams for "
         "DiscreteFactor.assignment (unequal cardinalities, out-of-range indices), argmax and argmax+assignment on one "
         "factor.  Every implementation answer must (a) assign exactly the requested variables, (b) use valid state "
         "NAMES, (c) be accepted by the extracted verified checker map_chk on the exact rational posterior (or lie within "
@@ -317,8 +317,28 @@ def cases(tier, seed):
     ns = 420 if tier == "quick" else 4200
     for i in range(ns):
         out.append(gen_session(rng, nmax, space, "bp" if i % 3 else "ve"))
+    nu = 160 if tier == "quick" else 1600
+    for _ in range(nu):
+        out.append(gen_update(rng, nmax, space))
     rng.shuffle(out)
     return out
+
+
+def gen_update(rng, nmax, space):
+    """a network whose CPDs are REPLACED on the same model object between rounds of queries"""
+    while True:
+        r = rng.random()
+        c = gen_trap(rng) if r < 0.15 else (gen_maxsum(rng) if r < 0.45 else gen_bn(rng, min(nmax, 5), space))
+        if c["n"] >= 1:
+            break
+    c = dict(c)
+    if rng.random() < 0.35:     # all-string names: the variant that can also be re-fitted from a data frame
+        c["vstyle"] = "str"
+        c["vnames"] = name_specs(rng, c["n"], "str")
+        c["states"] = [state_specs(rng, c["cards"][v], "str") for v in range(c["n"])]
+    c["kind"] = "update"
+    c["rounds"] = rng.randint(2, 3)
+    return c
 
 
 def gen_maxsum(rng):
@@ -392,7 +412,11 @@ def shrink(case):
         c = dict(case)
         c["nsteps"] = case["nsteps"] - 1
         yield c
-    if case["kind"] in ("bn", "session"):
+    if case["kind"] == "update" and case["rounds"] > 1:
+        c = dict(case)
+        c["rounds"] = case["rounds"] - 1
+        yield c
+    if case["kind"] in ("bn", "session", "update"):
         # drop a leaf node (keeps the rest a valid network)
         n = case["n"]
         for v in range(n):
@@ -1036,9 +1060,170 @@ def run_session(case, drv):
                                                             case["qseed"]]), tags=tags)
 
 
+# ------------------------------------------------------------------ parameter updates on one model object
+def named_factor(net, cpd):
+    """a TabularCPD the model currently holds -> [var ids, exact values] in the harness's state numbering"""
+    phi = cpd.to_factor()
+    vs = [net.var_of(x) for x in phi.variables]
+    pos = []
+    for x, v in zip(phi.variables, vs):
+        names = phi.state_names[x]
+        if len(names) != net.cards[v]:
+            raise ValueError("cardinality of %r changed" % (x,))
+        pos.append([[net.state_no(v, nm) for nm in names].index(i) for i in range(net.cards[v])])
+    vals = []
+    for idx in itertools.product(*[range(net.cards[v]) for v in vs]):
+        vals.append(Fraction(float(phi.values[tuple(p[i] for p, i in zip(pos, idx))])))
+    return [vs, vals]
+
+
+def run_update(case, drv):
+    """ONE BayesianNetwork object: use it, then replace CPDs (add_cpds without remove = documented replacement;
+    remove_cpds + add_cpds; fit on data), build FRESH engines and ask MAP questions; the answers are judged
+    against the parameters the model holds NOW (its cpds list), round after round."""
+    import pandas as pd
+    from pgmpy.inference import VariableElimination, BeliefPropagation
+    from pgmpy.factors.discrete import TabularCPD
+    net = Net(case)
+    bn, fs0 = build_bn(net)
+    rng = random.Random(case["qseed"] + 31)
+    n = net.n
+    conn = connected(case) and n >= 2
+    byv = {d["v"]: d for d in case["cpds"]}
+    cur = {v: [[fr(x) for x in r] for r in byv[v]["rows"]] for v in byv}     # current exact tables (rows)
+    tags = ["update n=%d rounds=%d" % (n, case["rounds"])]
+    nontrivial = False
+    can_fit = (all(isinstance(x, str) for x in net.vn)
+               and all(isinstance(sx_, str) for sl in net.st for sx_ in sl))
+
+    def current_fs():
+        # what the model object lists now; must be one CPD per variable
+        vars_ = [net.var_of(c.variable) for c in bn.cpds]
+        if sorted(vars_) != list(range(n)):
+            raise ValueError("model lists CPDs for %r" % (vars_,))
+        return [named_factor(net, c) for c in bn.cpds]
+
+    def ask(label, nquestions):
+        nonlocal nontrivial
+        fs = current_fs()
+        for _ in range(nquestions):
+            full = sample_pos(rng, net, cur, case)
+            k = 0 if rng.random() < 0.4 else rng.randint(0, n - 1)
+            E = rng.sample(range(n), k)
+            ev = {v: full[v] for v in E}
+            free = [v for v in range(n) if v not in ev]
+            Q = rng.sample(free, rng.randint(1, len(free)))
+            J = Judge(drv, net, fs, Q, ev, True)
+            if J.maxw <= 0:
+                continue
+            if len(J.w) >= 2:
+                nontrivial = True
+            evn = {net.vn[v]: net.st[v][s_] for v, s_ in ev.items()}
+            Qn = [net.vn[v] for v in Q]
+            engines = [("VE", lambda: VariableElimination(bn))]
+            if conn:
+                engines.append(("BP", lambda: BeliefPropagation(bn)))
+            for nm, mk in engines:
+                kw = {"elimination_order": rng.choice(HEURISTICS + [None])} if nm == "VE" else {}
+                res = mk().map_query(variables=list(Qn), evidence=dict(evn) or None, show_progress=False, **kw)
+                b = J.judge(res, "update %s: fresh %s engine" % (label, nm), strict_ties=False)
+                if b == "near":
+                    tags.append("near-tie-accepted")
+                elif b:
+                    b["kind"] = b["kind"] + ":after-parameter-update"
+                    return b
+        return None
+
+    # round 0: the model is used (check_model done by build_bn, engines built, questions asked)
+    b = ask("round 0 (original CPDs)", 2)
+    if b:
+        return b
+    bn.get_cpds(net.vn[rng.randrange(n)])
+    for rd in range(1, case["rounds"] + 1):
+        mode = rng.choice(["replace", "replace", "replace", "remove_add"] + (["fit"] if can_fit else []))
+        tags.append("update mode=" + mode)
+        if mode == "fit":
+            # data drawn from a freshly generated parameter set; every state of every variable occurs
+            newp = {v: regen_rows(rng, net, byv[v]) for v in byv}
+            rows = []
+            for _ in range(24):
+                rows.append(sample_pos(rng, net, newp, case))
+            for v in range(n):
+                for s_ in range(net.cards[v]):
+                    r = dict(rng.choice(rows))
+                    r[v] = s_
+                    rows.append(r)
+            df = pd.DataFrame({net.vn[v]: pd.Series([net.st[v][r[v]] for r in rows], dtype=object) for v in range(n)})
+            bn.fit(df, state_names={net.vn[v]: list(net.st[v]) for v in range(n)})
+            fsn = current_fs()
+            # exact current tables (rows) for sampling positive states: rebuild from the factors
+            for f in fsn:
+                v, pa = f[0][0], f[0][1:]
+                d = byv[v]
+                if sorted(pa) != sorted(d["pa"]):
+                    raise ValueError("fit changed the parents of %d" % v)
+                ncol = 1
+                for p_ in d["pa"]:
+                    ncol *= net.cards[p_]
+                tab = [[None] * ncol for _ in range(net.cards[v])]
+                shape = [net.cards[u] for u in f[0]]
+                for k_, idx in enumerate(itertools.product(*[range(c_) for c_ in shape])):
+                    a = dict(zip(f[0], idx))
+                    col = 0
+                    for p_ in d["pa"]:
+                        col = col * net.cards[p_] + a[p_]
+                    tab[a[v]][col] = f[1][k_]
+                cur[v] = tab
+        else:
+            targets = rng.sample(range(n), rng.randint(1, min(2, n)))
+            for v in targets:
+                d = byv[v]
+                rows = regen_rows(rng, net, d)
+                sn = {net.vn[u]: list(net.st[u]) for u in [v] + d["pa"]}
+                cpd = TabularCPD(net.vn[v], net.cards[v], [[float(x) for x in r] for r in rows],
+                                 evidence=[net.vn[p_] for p_ in d["pa"]] or None,
+                                 evidence_card=[net.cards[p_] for p_ in d["pa"]] or None, state_names=sn)
+                if mode == "remove_add":
+                    bn.remove_cpds(bn.cpds[[net.var_of(c.variable) for c in bn.cpds].index(v)])
+                bn.add_cpds(cpd)
+                cur[v] = rows
+        if rng.random() < 0.5:
+            bn.check_model()
+        b = ask("round %d (%s)" % (rd, mode), 3)
+        if b:
+            return b
+    return ok(nontrivial=nontrivial, key=common.canon_key(["update", case["rounds"], case["edges"], case["cards"],
+                                                            case["cpds"], case["vnames"], case["states"], case["qseed"]]),
+              tags=tags)
+
+
+def regen_rows(rng, net, d):
+    v = d["v"]
+    ncol = 1
+    for p in d["pa"]:
+        ncol *= net.cards[p]
+    cols = [column(rng, net.cards[v]) for _ in range(ncol)]
+    return [[cols[j][i] for j in range(ncol)] for i in range(net.cards[v])]
+
+
+def sample_pos(rng, net, tables, case):
+    """a joint state of positive probability under the given exact tables {v: rows}"""
+    byv = {d["v"]: d for d in case["cpds"]}
+    state = {}
+    for v in topo(case):
+        col = 0
+        for p in byv[v]["pa"]:
+            col = col * net.cards[p] + state[p]
+        pos = [i for i in range(net.cards[v]) if tables[v][i][col] > 0]
+        state[v] = rng.choice(pos)
+    return state
+
+
 def run_case(case, drv):
     if case["kind"] == "bn":
         return run_bn(case, drv)
+    if case["kind"] == "update":
+        return run_update(case, drv)
     if case["kind"] == "session":
         return run_session(case, drv)
     if case["kind"] == "mn":
